@@ -9,8 +9,8 @@ VARIABLE l
 IsHelper(e) == e.struct \in {"sign1helper", "sign1untaggedhelper"}
 KindOf(e) == CASE e.struct = "sign1helper" -> "sign1" [] e.struct = "sign1untaggedhelper" -> "sign1u" [] OTHER -> e.struct
 \* index of the observation of the operation under test, and of the marshal that follows a sign
-OpIdx(e) == IF IsHelper(e) THEN 1 ELSE IF e.struct = "csig" THEN 3 ELSE 2
-MarshalIdx(e) == IF IsHelper(e) THEN 1 ELSE OpIdx(e) + 1
+OpIdx(e) == e.pre + (IF IsHelper(e) THEN 1 ELSE IF e.struct = "csig" THEN 3 ELSE 2)
+MarshalIdx(e) == IF IsHelper(e) THEN e.pre + 1 ELSE OpIdx(e) + 1
 \* which element of the structure handed to the key is this layer's protected header
 ProtPos(e) == IF KindOf(e) \in {"sign1", "sign1u"} THEN 2 ELSE 3
 
@@ -24,10 +24,10 @@ AlgOfWireItem(protItem) ==
 
 \* the header alg that governs the operation under test
 Hdr(e) ==
-  IF e.flow = "decverify" THEN AlgOfWireItem(SignerProtOf(KindOf(e), e.steps[1].bytes, 1))
+  IF e.flow = "decverify" THEN AlgOfWireItem(SignerProtOf(KindOf(e), e.steps[1 + e.pre].bytes, 1))
   ELSE AlgOfBucket(e.P)
 
-Judged(e) == e.flow # "decverify" \/ e.obs[1].res = "ok"     \* a refused wire message needs no verdict
+Judged(e) == e.flow # "decverify" \/ e.obs[1 + e.pre].res = "ok"     \* a refused wire message needs no verdict
 
 Fails(e) ==
   IF ~Judged(e) THEN {} ELSE
